@@ -179,26 +179,6 @@ def decimalStrToFloatDirect (value : List Bytes → Bytes) (zeroDots : Bytes →
     .write 2 [1] zeroDots,
     .alloc 3 [2, 1, 0] value ]
 
-/-- `str_to_float` made to accept ANOTHER SPELLING of the exponent marker ("1E-5") by lower-casing it IN PLACE on what
-`as_encoded_array(number_text)` returned — for an already encoded argument that is the caller's own array — before the
-rows are selected (a plausible "accept what other tools write" patch). var 0 = text, var 1 = lengths -/
-def strToFloatFoldExponentInPlace (selRows value : List Bytes → Bytes) (zeroDots : Bytes → List Bytes → Bytes) : List Step :=
-  [ .view 2 0 (fun c => List.range c.length),                     -- as_encoded_array(x) of an encoded x: x itself
-    .write 2 [] (fun cur _ => cur.map (fun x => if x == 69 then 101 else x)),   -- number_text[number_text == "E"] = "e"
-    .alloc 3 [2, 1] selRows,
-    .write 3 [1] (fun cur a => zeroSigns cur (a.headD [])),
-    .write 3 [1] zeroDots,
-    .alloc 4 [3, 1, 2] value ]
-
-/-- the same acceptance done on a private copy (`number_text = number_text.copy()` first) -/
-def strToFloatFoldExponentOnCopy (selRows value : List Bytes → Bytes) (zeroDots : Bytes → List Bytes → Bytes) : List Step :=
-  [ .alloc 2 [0] (fun a => a.headD []),                           -- .copy()
-    .write 2 [] (fun cur _ => cur.map (fun x => if x == 69 then 101 else x)),
-    .alloc 3 [2, 1] selRows,
-    .write 3 [1] (fun cur a => zeroSigns cur (a.headD [])),
-    .write 3 [1] zeroDots,
-    .alloc 4 [3, 1, 2] value ]
-
 /-- list-valued column (io/delimited_buffers.py): var 0 = file buffer, var 1 = field starts/lengths.
 `get_field_by_number(.., keep_sep=True)` gathers the fields through a `RaggedView2` (fresh buffer), then
 `_parse_split_fields` writes the separator at every row end (`text[:, -1] = sep`, copy fallback) and splits. -/
